@@ -539,3 +539,40 @@ func byteOffsetIntoRunes(s string) int {
 	}
 	return n
 }
+
+// LINT-NILSTORE: the registry is given what the helper answers, the helper answers nil for an empty text, and the
+// reader uses what the getter hands back without a test.
+type entry struct{ text string }
+
+type registry struct{ entries map[string]*entry }
+
+func parseEntry(s string) *entry {
+	if s == "" {
+		return nil
+	}
+	return &entry{text: s}
+}
+
+func (r *registry) put(k, s string) { r.entries[k] = parseEntry(s) }
+
+func (r *registry) get(k string) *entry { return r.entries[k] }
+
+func (r *registry) textOf(k string) string { return r.get(k).text }
+
+func useRegistry(k, s string) string {
+	r := &registry{entries: map[string]*entry{}}
+	r.put(k, s)
+	return r.textOf(k)
+}
+
+// LINT-CONTRADICT: the rejection sits behind a flag that says the names are equal and a test that they differ.
+type fileMeta struct{ name string }
+
+func neverRejects(known map[string]*fileMeta, alias, path string) bool {
+	m, ok := known[alias]
+	seen := ok && m.name == path
+	if seen && m.name != path {
+		return false
+	}
+	return true
+}
